@@ -125,17 +125,20 @@ def quads(full=False):
                 a2, b2 = ps[p2]
                 for k2 in range(a2):
                     for cname in kinds:
-                        key = f"{p1}/{k1}/{p2}/{k2}/{cname}"
-                        try:
-                            inner = [default_child(p2, m) for m in range(a2)]
-                            inner[k2] = ch[cname]()
-                            outer = [default_child(p1, m) for m in range(a1)]
-                            outer[k1] = b2(inner)
-                            tree = b1(outer)
-                        except Exception as e:  # noqa: BLE001 - rejected by the real constructors
-                            yield key, None, f"{type(e).__name__}: {e}"
-                            continue
-                        yield key, tree, None
+                        # the child at position k2 only, and (once per inner parent) at EVERY position of the inner parent, so
+                        # that the inner text both begins and ends with the child's text
+                        for everywhere in ((False, True) if (k2 == 0 and a2 > 1) else (False,)):
+                            key = f"{p1}/{k1}/{p2}/{'all' if everywhere else k2}/{cname}"
+                            try:
+                                inner = [ch[cname]() if everywhere else default_child(p2, m) for m in range(a2)]
+                                inner[k2] = ch[cname]()
+                                outer = [default_child(p1, m) for m in range(a1)]
+                                outer[k1] = b2(inner)
+                                tree = b1(outer)
+                            except Exception as e:  # noqa: BLE001 - rejected by the real constructors
+                                yield key, None, f"{type(e).__name__}: {e}"
+                                continue
+                            yield key, tree, None
 
 
 # --------------------------------------------------------------------------- canonical form
